@@ -94,9 +94,11 @@ func genOp(r *kit.Rand, cfg config, g *genState, faults bool, unreach bool) op {
 		o.K = "read"
 		o.Exp = !sql && r.Chance(0.3)
 		o.Panic = r.Chance(0.02)
+		o.NF = genShape(r)
 	case 1:
 		o.K = "index"
 		o.Panic = r.Chance(0.02)
+		o.NF = genShape(r)
 	case 2:
 		o.K = "get"
 		o.IsI = sql && r.Chance(0.3)
@@ -254,6 +256,7 @@ func runHistory(w *world, c *kit.Case, cfg config, ops []op, wait bool) *hist {
 	c.Obs("cache_misses", int64(h.misses))
 	c.Obs("invalidations_of_present_entries", int64(h.invalidated))
 	c.Obs("entries_expired_by_clock", int64(h.expired))
+	c.Obs("absent_row_reads", int64(h.nfReads))
 	nontrivial := h.hits > 0 && (h.invalidated > 0 || h.expired > 0 || h.fault > 0)
 	parts := []any{cfg.Flavour, cfg.E, cfg.NE, cfg.HasE, cfg.HasNE, cfg.StrPK}
 	for _, s := range h.log {
